@@ -10,6 +10,7 @@ UNIT_MODES = {
     'div': ['dbg', 'rel'],
     'numtraits_fwd': ['dbg', 'rel'],
     'numtraits_int': ['dbg', 'rel'],
+    'numtraits_gcd': ['dbg', 'rel'],
 }
 
 # property -> verus units owned by the property (dependencies are added automatically) and the
